@@ -35,13 +35,15 @@ CATALOG = {
     "C06": [S("s-c06-plain", "c06_roundtrip", {"structured": False, "quick": True}, {"structured": False, "quick": False}, shards=4,
               functions=[GRAMMAR, FIND, REGEXES, TOKENS]),
             S("s-c06-structured", "c06_roundtrip", {"structured": True, "quick": True}, {"structured": True, "quick": False}, shards=4,
-              functions=[GRAMMAR, FIND, REGEXES, TOKENS])],
+              functions=[GRAMMAR, FIND, REGEXES, TOKENS]),
+            S("s-c06-placement-structured", "c10_templates", {"structured": True, "quick": True}, {"structured": True, "quick": False}, shards=6),
+            S("s-c06-placement-plain", "c10_templates", {"structured": False, "quick": True}, {"structured": False, "quick": False}, shards=6)],
     "C10": [S("s-c10-plain", "c10_templates", {"structured": False, "quick": True}, {"structured": False, "quick": False}, shards=6),
             S("s-c10-structured", "c10_templates", {"structured": True, "quick": True}, {"structured": True, "quick": False}, shards=6)],
     "C11": [S("s-c11-freeform", "c11_freeform", {"n": 16}, {"n": 22}),
             S("s-c11-names", "c11_names", {}, shards=2),
             S("s-c11-strings", "c11_strings", {"n_body": 10}, {"n_body": 14})],
-    "C12": [S("s-c12-rule", "c12_rule", {"m": 14}, {"m": 20}, functions=[REGEXES, "str::parse::<u32> (as decimal value <= 4294967295; cross-checked by Kani harness u_parse in the thorough tier)"]),
+    "C12": [S("s-c12-rule", "c12_rule", {"m": 19}, {"m": 24}, functions=[REGEXES, "str::parse::<u32> (as decimal value <= 4294967295; cross-checked by Kani harness u_parse in the thorough tier)"]),
             S("s-c12-token", "c12_token", {"tail": 3}, {"tail": 5, "ks": (1, 2, 3, 5, 9, 10)}, functions=[REGEXES, TOKENS])],
     "C13": [S("s-c13-existing", "c13_existing", {"quick": True}, {"quick": False}, shards=8, functions=[GRAMMAR, FIND]),
             S("s-c13-unusable", "c13_unusable", {"quick": True}, {"quick": False}, shards=4, functions=[GRAMMAR, FIND]),
